@@ -139,6 +139,12 @@ func checkC20(c *Ctx, w *World) {
 					if !isElemConn(cc.Value, nx) {
 						continue
 					}
+					// reached through the element's VALUE (<slot>.subConn): only in a container whose every entry is keyed by its
+					// own slot's connection — in the registry of replacements the value is the OLD slot, not the replacement
+					if e, isE := stripConv(cc.Value).(*ssa.Extract); !(isE && e.Tuple == ssa.Value(nx) && e.Index == 1) && !valueNamesKey(pl, field) {
+						why = "the loop reaches the connection through the entry's value, which in " + field + " is not the slot of the key's connection"
+						continue
+					}
 					switch cc.Method.Name() {
 					case "UpdateAddresses":
 						if isAddrs(cc.Args[0]) || (isLoadOf(cc.Args[0], "gcpBalancer.addrs") && dominatesInstr(store, in)) {
@@ -152,7 +158,9 @@ func checkC20(c *Ctx, w *World) {
 			body := nx.Block().Succs[0]
 			switch {
 			case upd == nil:
-				why = "the loop does not call UpdateAddresses with the new list on the element's connection"
+				if !strings.HasPrefix(why, "the loop reaches") {
+					why = "the loop does not call UpdateAddresses with the new list on the element's connection"
+				}
 			case con == nil:
 				why = "the loop does not ask the element's connection to connect"
 			case !(upd.Block().Dominates(latchOf(l)) && con.Block().Dominates(latchOf(l))) || !body.Dominates(upd.Block()):
@@ -243,6 +251,42 @@ func isElemConn(v ssa.Value, nx *ssa.Next) bool {
 		}
 	}
 	return false
+}
+
+// valueNamesKey: every insertion into the connection-keyed map field stores, under key k, a slot whose subConn is k (a
+// fresh slot built with subConn: k, or a slot that receives subConn ← k in the same function).
+func valueNamesKey(pl *pool, field string) bool {
+	n, okAll := 0, true
+	for _, a := range pl.ai.ByField[field] {
+		if a.What != "map-insert" {
+			continue
+		}
+		mu, isMU := a.Instr.(*ssa.MapUpdate)
+		if !isMU {
+			okAll = false
+			continue
+		}
+		n++
+		found := false
+		slot := cellValue(mu.Value)
+		eachInstr(a.Fn, func(in ssa.Instruction) {
+			st, ok := in.(*ssa.Store)
+			if !ok {
+				return
+			}
+			fa, ok := st.Addr.(*ssa.FieldAddr)
+			if !ok || fieldRefOfAddr(fa) != "subConnRef.subConn" {
+				return
+			}
+			if cellValue(fa.X) == slot && cellValue(st.Val) == cellValue(mu.Key) {
+				found = true
+			}
+		})
+		if !found {
+			okAll = false
+		}
+	}
+	return okAll && n > 0
 }
 
 func latchOf(l *Loop) *ssa.BasicBlock {
